@@ -187,6 +187,14 @@ func c03Gen(tier string, seed int64, idx int) c03Case {
 		c.Late = 1 + r.Intn(4)
 		c.RaceErr = errSpec{Kind: "status", Code: 1 + r.Intn(16), MsgCls: "plain", Details: r.Intn(3)}
 		return c
+	case 4:
+		if (idx/8)%2 == 0 {
+			c.Family = "loss-before-trailer"
+			c.RaceKind = []string{"server", "bidi"}[r.Intn(2)]
+			c.RaceErr = errSpec{Kind: "status", Code: 1 + r.Intn(16), MsgCls: "plain"}
+			c.Foreign = []string{"io.EOF", "wrapped-io.EOF", "custom", "context.Canceled"}[(idx/16)%4]
+			return c
+		}
 	case 5:
 		c.Family = "loss-after-trailer"
 		c.RaceKind = []string{"server", "bidi"}[r.Intn(2)]
@@ -227,8 +235,52 @@ func c03Run(tier string, seed int64, idx int) *core.Result {
 		c03ForeignRun(tier, seed, idx, c, res)
 	case "loss-after-trailer":
 		c03LossAfterTrailer(tier, seed, idx, c, res)
+	case "loss-before-trailer":
+		c03LossBeforeTrailer(tier, seed, idx, c, res)
 	}
 	return res
+}
+
+// c03LossBeforeTrailer: the handler sends one message and fails, but the connection is lost after
+// the message and before the trailer - with whatever error the transport uses for that (io.EOF, a
+// wrapped io.EOF, ...). The caller must not observe success: the stream was never completed.
+func c03LossBeforeTrailer(tier string, seed int64, idx int, c c03Case, res *core.Result) {
+	h := bed.NewHooks()
+	h.Install()
+	b := bed.New(bed.Opts{Serialise: c.Ser})
+	cc := b.Conns[0]
+	gates := NewGates()
+	tag := fmt.Sprintf("lbt%d", idx)
+	herr := mkErr(c.RaceErr, idx)
+	hrec := &SideRec{}
+	hops := []Op{{Op: "send", N: 1, Size: 17}, {Op: "ret", Err: herr}}
+	if c.RaceKind == "server" {
+		hops = append([]Op{{Op: "recv", N: 1}}, hops...)
+	}
+	b.Impl.SetStream(tag, func(t, k string, ss grpc.ServerStream) error { return runHandlerProg(ss, t, hops, hrec, gates) })
+	end := b.Links[0].A
+	end.SetReadErr(c09ReadErr(c.Foreign))
+	end.FailReadAfter(1) // the message arrives, the trailer never does
+	end.SetOnRead(func(n int) {
+		if n >= 1 {
+			end.Discard()
+		}
+	})
+	cr := StartClient(context.Background(), func() {}, nil, cc, c.RaceKind, tag, []byte("q"), []Op{{Op: "recvAll"}}, nil, gates, nil, nil)
+	st, snap := settle(tier, cr.IsDone)
+	if st == "stuck" {
+		res.ViolateD("call-never-returns", map[string]any{"goat_goroutines": goatParked(snap)}, "caller never returned after the connection was lost before the trailer")
+	} else if st == "timeout" {
+		res.Verdict, res.Note = core.Inconclusive, "watchdog"
+	} else {
+		observed := callerOutcome(cr.Rec)
+		if observed == nil || observed == io.EOF {
+			res.Violate("connection-loss-reported-as-success/"+c.Foreign, "handler failed with code %d, the connection was lost (%s) before its trailer arrived, and the caller observed %v", c.RaceErr.Code, c.Foreign, observed)
+		}
+		res.Stat("loss_before_trailer_cases", 1)
+	}
+	res.Stat("rpcs", 1)
+	finish(tier, b, h, res)
 }
 
 // c03LossAfterTrailer: the handler sends messages and fails with a status; the caller is slow and
@@ -601,11 +653,11 @@ func init() {
 	core.Register(&core.Prop{
 		ID:    "C03",
 		Level: "exploration",
-		Rule:  "cases: (matrix) 24 RPCs per case cycling 4 RPC kinds x 11 error kinds (status x3, wrapped status, plain, context canceled/deadline, error whose GRPCStatus says OK, nil, io.EOF, wrapped io.EOF) x all 16 non-OK codes x message class {plain, empty, Unicode, 4 KiB} x 0..3 Any details x position {before any message, between, after the last}, unary also with a body alongside the error; (race) handler fails while the caller still sends, the trailer held in the server writer by a rendezvous hook while 1..4 late bodies arrive; (loss-after-trailer) the handler sends one message and fails; the caller starts receiving only after the complete response was read and the transport then failed: it must still see the messages and the status; (foreign) 9 reply shapes from a scripted peer (explicit OK + body, status without metadata, resets with/without trailer / after a body). Every case is non-trivial; distinct = distinct descriptors.",
+		Rule:  "cases: (matrix) 24 RPCs per case cycling 4 RPC kinds x 11 error kinds (status x3, wrapped status, plain, context canceled/deadline, error whose GRPCStatus says OK, nil, io.EOF, wrapped io.EOF) x all 16 non-OK codes x message class {plain, empty, Unicode, 4 KiB} x 0..3 Any details x position {before any message, between, after the last}, unary also with a body alongside the error; (race) handler fails while the caller still sends, the trailer held in the server writer by a rendezvous hook while 1..4 late bodies arrive; (loss-before-trailer) the handler sends a message and fails but the connection is lost - with io.EOF, a wrapped io.EOF, a custom error or context.Canceled - before the trailer arrives: the caller must not observe success; (loss-after-trailer) the handler sends one message and fails; the caller starts receiving only after the complete response was read and the transport then failed: it must still see the messages and the status; (foreign) 9 reply shapes from a scripted peer (explicit OK + body, status without metadata, resets with/without trailer / after a body). Every case is non-trivial; distinct = distinct descriptors.",
 		Plan:  func(tier string, seed int64) int { return tierN(tier, 144, 4800) },
 		Run:   c03Run,
 		RequiredStats: func(string) []string {
-			return []string{"trailer_held_in_writer", "foreign_cases", "rpcs", "loss_after_trailer_cases"}
+			return []string{"trailer_held_in_writer", "foreign_cases", "rpcs", "loss_after_trailer_cases", "loss_before_trailer_cases"}
 		},
 	})
 }
